@@ -19,12 +19,92 @@ def gen(fmt, rng, tier):
             "modules": lambda o: (o["variant"], o["arch"], json.dumps(o["uid"], sort_keys=True)),
             "extra_files": lambda o: (o["variant"], o["arch"], o["path"])}[fmt]
     seen, ops = set(), []
-    for o in strip_ops(spec["ops"]):             # calls that hit the same entry twice do not commute ("last write wins"): keep the first
+    for o in strip_ops(spec["ops"]):
+        # rpms: calls that hit the same entry twice do not commute ("last write wins"): keep the first.  modules / extra_files:
+        # repeated calls are CONTENT (a module added once per category concatenates its rpm list; an extra file listed twice is two
+        # list entries) and `permute` keeps their relative order, so they stay
         k = keyf(o)
-        if k not in seen:
+        if fmt != "rpms" or k not in seen:
             seen.add(k)
             ops.append(o)
     spec["ops"] = ops
+    return spec
+
+
+KEY_SHAPES = ["Server", "server", "SERVER", "S\u00e9rver", "\U0001F4BF", "ppc", "ppc64", "ppc64le", "None", "null", "0", "1.0", "False",
+              "a b", " lead", "trail ", "tab\tkey", "\u00a0", "a-b", "a.b", "a:b", 'q"uote', "back\\slash", "a,b", "a/b", "a=b", "#h", "%p", "[b]", ";s", "a--b", "x" * 300, "\u0663", "\uff17", "Z", "a", "_"]
+
+
+def boost(fmt, spec, rng, i):
+    """round-robin over the container classes of the format: >= 3 entries in non-sorted insertion order in every dict level, key
+    shapes (case variants of one name, non-ASCII / astral, prefix families, type look-alikes, very long), repeated list entries"""
+    import formats.manifest_common as mc
+    arches = mc.arches()
+    ops = spec["ops"]
+    cls = i % 5
+    if fmt == "rpms":
+        R = F("rpms")
+        if cls == 0:                                   # >= 3 variants, key shapes, descending
+            vs = sorted(["server", "Server", "\uff17", "\U0001F4BF"] + rng.sample(KEY_SHAPES[2:], 2), reverse=True)
+            src = R.gen_source(rng)
+            for j, v in enumerate(vs):
+                ops.append(R.valid_op(rng, src, v, arches[0], j))
+        elif cls == 1:                                 # >= 3 arches under one variant (prefix family), descending
+            src = R.gen_source(rng)
+            for j, a in enumerate(sorted([x for x in arches if x.startswith(("ppc", "s390", "arm"))][:5], reverse=True)):
+                ops.append(R.valid_op(rng, src, "Server", a, 0))
+        elif cls == 2:                                 # >= 3 source packages in one table, >= 3 packages under one of them
+            srcs = [R.gen_source(rng) for _ in range(4)]
+            srcs.sort(key=lambda x: x["name"], reverse=True)
+            for s_ in srcs:
+                ops.append(R.valid_op(rng, s_, "Client", arches[1], 0))
+            for j in range(5):
+                ops.append(R.valid_op(rng, srcs[0], "Client", arches[1], j % 2))
+    elif fmt == "modules":
+        M = F("modules")
+        if cls in (0, 3):                              # ONE module added once per category, the rpm lists overlap (repeated entries), >= 3 distinct
+            parts = M.gen_module(rng)
+            pool = ["zz-0:9-1.noarch", "foo-0:1.0-1.x86_64", "bar-libs-2:3.1-4.el8.noarch", "Aa-0:1-1.src", "foo-debuginfo-0:1.0-1.x86_64", "10-0:1-1.noarch"]
+            v, a = rng.choice(["Server", "AppStream"]), arches[0]
+            cats = list(M.CATEGORIES)
+            rng.shuffle(cats)
+            shared = rng.choice(pool)
+            for j, cat in enumerate(cats[:rng.choice([2, 3])]):
+                op = M.valid_op(rng, parts, v, a, M.CATEGORIES.index(cat))
+                items = rng.sample(pool, rng.randint(2, 4))
+                if shared not in items:
+                    items.insert(rng.randrange(len(items) + 1), shared)
+                if cls == 3 and j == 0:
+                    items.append(items[0])             # a repeated element inside one argument
+                op["rpms"] = {"list": items} if j % 2 == 0 else {"tuple": items}
+                ops.append(op)
+        elif cls == 1:                                 # >= 3 modules in one table, >= 3 variants with key shapes
+            vs = sorted(["server", "Server"] + rng.sample(KEY_SHAPES[2:], 1), reverse=True)
+            mods = sorted((M.gen_module(rng) for _ in range(4)), reverse=True)
+            for j, m in enumerate(mods):
+                ops.append(M.valid_op(rng, m, vs[j % 3], arches[0], j))
+                ops.append(M.valid_op(rng, m, vs[0], arches[0], j))
+        elif cls == 2:                                 # >= 3 arches
+            m = M.gen_module(rng)
+            for a in sorted(arches[:6], reverse=True)[:4]:
+                ops.append(M.valid_op(rng, m, "BaseOS", a, 0))
+    elif fmt == "extra_files":
+        E = F("extra_files")
+        if cls == 0:                                   # >= 3 entries in one list, not sorted, one path listed twice; >= 3 checksum types incl. case variants
+            v, a = "Server", arches[0]
+            names = ["zz/GPL", "EULA", "a/README", "EULA", "10", "9", "S\u00e9/\U0001F4BF", "a b/c"]
+            for n in names[:rng.randint(4, 8)]:
+                op = E.valid_op(rng, v, a)
+                op["path"] = n
+                op["checksums"] = dict((t, "%032x" % rng.getrandbits(128)) for t in ["sha256", "SHA256", "md5", "Sha512", "sha1"][:rng.randint(3, 5)])
+                ops.append(op)
+        elif cls == 1:                                 # >= 3 variants with key shapes
+            for v in sorted(["server", "Server", "\uff17", "\U0001F4BF"] + rng.sample(KEY_SHAPES[2:], 2), reverse=True):
+                ops.append(E.valid_op(rng, v, arches[0]))
+        elif cls == 2:                                 # >= 3 arches
+            for a in sorted(arches[:7], reverse=True)[:4]:
+                ops.append(E.valid_op(rng, "Client", a))
+    spec["ops"] = strip_ops(ops)
     return spec
 
 
@@ -59,9 +139,72 @@ def content_key(fmt, obj):
     return hashlib.sha1(json.dumps(mc.enc(m), sort_keys=True).encode()).hexdigest()
 
 
+def _unsorted3(keys):
+    keys = list(dict.fromkeys(keys))
+    return len(keys) >= 3 and keys != sorted(keys)
+
+
 def features(fmt, spec):
     f = []
     ops = spec["ops"]
+    if _unsorted3(o["variant"] for o in ops):
+        f.append("%s:variant dict >=3 unsorted" % fmt)
+    by_v = {}
+    for o in ops:
+        by_v.setdefault(o["variant"], []).append(o["arch"])
+    if any(_unsorted3(a) for a in by_v.values()):
+        f.append("%s:arch dict >=3 unsorted" % fmt)
+    if any(k != "Server" and k.lower() == "server" for k in by_v) and "Server" in by_v:
+        f.append("%s:keys differing only in case" % fmt)
+    if any(ord(c) > 127 for k in by_v for c in k):
+        f.append("%s:non-ASCII key" % fmt)
+    if any(len(k) >= 300 for k in by_v):
+        f.append("%s:key >= 300 chars" % fmt)
+    if any(k != k.strip() or "\t" in k or "\u00a0" in k for k in by_v):
+        f.append("%s:key with leading/trailing blank, tab or NBSP" % fmt)
+    if any(c in k for k in by_v for c in '"\\,/=#%[];'):
+        f.append("%s:key containing a delimiter / quote / backslash" % fmt)
+    if any(ord(c) > 0xFFFF for k in by_v for c in k) and any(0xD7FF < ord(c) <= 0xFFFF for k in by_v for c in k):
+        f.append("%s:astral and high-BMP key in one dict (code-point vs UTF-16 order)" % fmt)
+    cells = {}
+    for o in ops:
+        cells.setdefault((o["variant"], o["arch"]), []).append(o)
+    if fmt == "rpms":
+        if any(_unsorted3((o.get("srpm") or o["nevra"]) for o in c) for c in cells.values()):
+            f.append("rpms:srpm table >=3 unsorted")
+        for c in cells.values():
+            by_s = {}
+            for o in c:
+                if o.get("srpm"):
+                    by_s.setdefault(o["srpm"].split(":")[-1], []).append(o["nevra"])
+            if any(_unsorted3(x) for x in by_s.values()):
+                f.append("rpms:rpm table of one srpm >=3 unsorted")
+    if fmt == "modules":
+        for c in cells.values():
+            if _unsorted3(json.dumps(o["uid"]) for o in c):
+                f.append("modules:module table >=3 unsorted")
+            by_u = {}
+            for o in c:
+                by_u.setdefault(json.dumps(o["uid"]).split("/")[-1], []).append(o)
+            for l in by_u.values():
+                if len(set(o["category"] for o in l)) >= 2:
+                    f.append("modules:one module added for >= 2 categories (modulemd_path dict)")
+                    allr = [x for o in l if isinstance(o.get("rpms"), dict) for x in (o["rpms"].get("list") or o["rpms"].get("tuple") or [])]
+                    if len(set(allr)) < len(allr) and len(set(allr)) >= 3:
+                        f.append("modules:rpm list with a REPEATED entry across categories, >= 3 distinct")
+        if any(isinstance(o.get("rpms"), dict) and (lambda l: len(set(l)) < len(l))(o["rpms"].get("list") or o["rpms"].get("tuple") or []) for o in ops):
+            f.append("modules:repeated element inside one rpms argument")
+    if fmt == "extra_files":
+        for c in cells.values():
+            ps = [o["path"] for o in c]
+            if len(ps) >= 3 and ps != sorted(ps):
+                f.append("extra_files:entry list >=3, not sorted (caller order)")
+            if len(set(ps)) < len(ps):
+                f.append("extra_files:one path listed twice")
+        if any(isinstance(o.get("checksums"), dict) and _unsorted3(o["checksums"]) for o in ops):
+            f.append("extra_files:checksum dict >=3 unsorted")
+        if any(isinstance(o.get("checksums"), dict) and len(set(k.lower() for k in o["checksums"])) < len(o["checksums"]) for o in ops):
+            f.append("extra_files:checksum keys differing only in case")
     if len(ops) >= 3:
         f.append("%s:>=3 add calls" % fmt)
     if len(set((o["variant"], o["arch"]) for o in ops)) >= 2:
